@@ -182,12 +182,13 @@ Section Protocol.
   (** ---- multipart: [FromReq<MultipartFormData>] looks up the boundary first ---- *)
   Variable parse_boundary : bytes -> option bytes.     (* multer::parse_boundary *)
   Definition L_no_boundary : bytes :=
-    [99; 111; 117; 108; 100; 110; 39; 116; 32; 112; 97; 114; 115; 101; 32; 98; 111; 117; 110; 100; 97; 114; 121].
-    (* "couldn't parse boundary" *)
+    [99; 111; 117; 108; 100; 110; 39; 116; 32; 112; 97; 114; 115; 101; 32; 116; 104; 101; 32; 109; 117; 108; 116; 105; 112; 97; 114; 116; 32; 98; 111; 117; 110; 100; 97; 114; 121; 32; 102; 114; 111; 109; 32; 116; 104; 101; 32; 67; 111; 110; 116; 101; 110; 116; 45; 84; 121; 112; 101; 32; 104; 101; 97; 100; 101; 114].
+    (* "couldn't parse the multipart boundary from the Content-Type header" *)
   Definition multipart_boundary (content_type : option bytes) : outcome bytes E :=
     match match content_type with Some c => parse_boundary c | None => None end with
     | Some b => Ok b
-    | None => Panic      (* .expect("couldn't parse boundary") *)
+    | None => Err (from_server_fn_error (EE KArgs L_no_boundary))
+      (* was [.expect("couldn't parse boundary")], i.e. [Panic], before the fix 51c8f23 *)
     end.
 End Protocol.
 
